@@ -26,6 +26,7 @@ var vSnippets = []struct {
 	{`<ul><li>ItemK1</li><p class="nav">NavMidK</p><li>ItemK2</li></ul>`, []string{"ItemK1", "NavMidK", "ItemK2"}},
 	{`<ul><li>ItemL<table><tr><td>CellL</td></tr></table></li></ul>`, []string{"ItemL", "CellL"}},
 	{`<table><tr><th colspan="2">TitleM</th></tr><tr><td>LeftM</td><td>RightM</td></tr></table>`, []string{"TitleM", "LeftM", "RightM"}},
+	{`<table><tr><td>ZürichN | main<br>street</td><td>5&nbsp;&euro; ÖreN</td></tr></table>`, []string{"ZürichN", "ÖreN"}},
 }
 
 // H_C19_text_from_html: from HTML source text through the real parser to the extracted text: every piece of content
@@ -33,7 +34,7 @@ var vSnippets = []struct {
 // Markdown and the element list; stricter modes return subsequences.
 //
 //symgo:harness prop=C19 kernel=K4-text-from-html-source
-//symgo:desc HTML source = doctype + head (title, style) + body of 2 quick / 2..3 thorough fragments chosen from a catalogue of 12 (a list with a paragraph interleaved between its items, the same with the paragraph in a navigation class, a table inside a list item, a table whose first row is a single spanning cell; heading with entity; unclosed paragraph with inline elements and <br>; list with unclosed items and a nested list; table with thead/tbody/tfoot and row/column spans; pre/code with entities; blockquote followed by script and style; deeply nested section/article; ordered list with paragraph items and a numeric entity), distinct, in enumerated order; parsed by the real golang.org/x/net/html parser (interpreted): in mode None the element list, Text(), Markdown() and the document model's text each contain every marker of the chosen fragments exactly once and in document order, no script/style text and no markup; each stricter mode's marker sequence is a subsequence of the previous one
+//symgo:desc HTML source = doctype + head (title, style) + body of 2 quick / 2..3 thorough fragments chosen from a catalogue of 13 (a table cell holding non-ASCII letters next to a pipe and a line break; a list with a paragraph interleaved between its items, the same with the paragraph in a navigation class, a table inside a list item, a table whose first row is a single spanning cell; heading with entity; unclosed paragraph with inline elements and <br>; list with unclosed items and a nested list; table with thead/tbody/tfoot and row/column spans; pre/code with entities; blockquote followed by script and style; deeply nested section/article; ordered list with paragraph items and a numeric entity), distinct, in enumerated order; parsed by the real golang.org/x/net/html parser (interpreted): in mode None the element list, Text(), Markdown() and the document model's text each contain every marker of the chosen fragments exactly once and in document order, no script/style text and no markup; each stricter mode's marker sequence is a subsequence of the previous one
 func H_C19_text_from_html() {
 	n := vAnyIntIn(2, 2+vTier())
 	var picked []int
